@@ -27,16 +27,21 @@ From Geo Require Import Base.GoPrim Base.F64 Base.Exact Gen.R3 Gen.S2Pred Model.
   Proofs.C03_TangentGeom Proofs.Link_C02_C03.
 Local Open Scope R_scope.
 
+(** The fixed edge must be a geodesic edge: for b == -a exactly (s2_antipodal) no w is positive on
+    both, PointCross(a,-a) is the zero vector and the test is meaningless
+    (Link_C02_C03.H_TANGENT_unguarded_refuted). *)
 Definition H_TANGENT_SEP : Prop := forall a b c d,
-  unit_pt a -> unit_pt b -> unit_pt c -> unit_pt d -> x_tangent a b c d = true ->
+  unit_pt a -> unit_pt b -> unit_pt c -> unit_pt d -> s2_antipodal a b = false ->
+  x_tangent a b c d = true ->
   exists t1 t2 t3 w1 w2 w3,
     dotv a t1 t2 t3 <= 0 /\ dotv b t1 t2 t3 <= 0 /\ 0 < dotv c t1 t2 t3 /\ 0 < dotv d t1 t2 t3 /\
     0 < dotv a w1 w2 w3 /\ 0 < dotv b w1 w2 w3.
 
 Theorem tangent_sound_from_sep : H_TANGENT_SEP -> H_TANGENT.
 Proof.
-  intros H a b c d Ht. unfold u_tangent in Ht.
-  destruct (H (upt a) (upt b) (upt c) (upt d) (upt_unit a) (upt_unit b) (upt_unit c) (upt_unit d) Ht)
+  intros H a b c d Ht. unfold u_tangent in Ht. apply andb_true_iff in Ht. destruct Ht as [G Ht].
+  apply negb_true_iff in G. unfold u_antipodal in G. unfold u_tangent_raw in Ht.
+  destruct (H (upt a) (upt b) (upt c) (upt d) (upt_unit a) (upt_unit b) (upt_unit c) (upt_unit d) G Ht)
     as (t1 & t2 & t3 & w1 & w2 & w3 & TA & TB & TC & TD & WA & WB).
   exact (separation_no_crossing (upt a) (upt b) (upt c) (upt d) t1 t2 t3 w1 w2 w3
            (upt_unit a) (upt_unit b) (upt_unit c) (upt_unit d) TA TB TC TD WA WB).
